@@ -66,14 +66,20 @@ func (r *FunctionData[T]) UpdateData(remoteWrite, persist bool, newData *T, filt
 		return nil, model.NewErrorTypeFromString(fmt.Sprintf("partial updates are not supported for type '%s'", util.Type[T]().Name()))
 	}
 
-	if r.data == nil {
-		r.data = new(T)
+	// an empty store only becomes non-empty if the update succeeds and is to be persisted
+	current := r.data
+	if current == nil {
+		current = new(T)
 	}
 
-	updater := any(r.data).(model.Updater)
+	updater := any(current).(model.Updater)
 	data, success := updater.UpdateList(remoteWrite, persist, newData, filterPartial, filterDelete)
 	if !success {
 		return nil, model.NewErrorTypeFromString("update failed, likely not allowed to write")
+	}
+
+	if persist {
+		r.data = current
 	}
 
 	return data, nil
